@@ -251,6 +251,15 @@ UNITS = {
         ],
         'lemmas': [],
         'level': 'other',
+        'explanation': 'Proved for every triple list and top: graph construction (roles get their colon; top, marker '
+                       'table and metadata copied), the implicit top, variables, the refusal of a top that is not a '
+                       'variable, the filters, and instances / edges / attributes as order-preserving sub-lists that '
+                       'partition the triples; the set operations |=, -=, |, - as order-preserving union and difference '
+                       'that carry the added triples\' markers along, keep the metadata (in-place forms) or drop it '
+                       '(new graph), leave the operands untouched and drop an explicit top once it no longer occurs '
+                       '(iteration over a set is modelled as an arbitrary duplicate-free order; comprehension '
+                       'equalities by prefix induction).  reentrancies() has its contract stated and executed natively, '
+                       'not proved (defaultdict counting); sequences of operations are decided by the bounded stand-in.',
     },
     'C13': {
         'functions': [
